@@ -227,6 +227,10 @@ def cut_loop(ex, s, st, ordn, spec, lo, hi, step, elem_of):
     # calls to repo functions with modifies clauses: add their out-params
     for nm in spec.get("modifies", []):
         stored.add(nm)
+    for nm, ty in (spec.get("locals") or {}).items():
+        if nm not in st.env:
+            from .verify import parse_type
+            st.env[nm] = fresh(nm, ex.ctx.elem_sort(parse_type(ty)["dtype"]))
     st.pre[ordn] = (dict(st.env), dict(st.heap))
     st.pre["last"] = st.pre[ordn]
 
